@@ -89,11 +89,14 @@ func runGoderive(bin, dir string, args []string, plan *Plan, gomaxprocs int, ext
 	if gomaxprocs > 0 {
 		env = append(env, fmt.Sprintf("GOMAXPROCS=%d", gomaxprocs))
 	}
-	r := runCmd(dir, env, genWatchdog, bin, args...)
+	// the simulated process gets a virtual-memory ceiling (a runaway generation loop is cut off as
+	// "fatal error: out of memory" after a second or two instead of eating the machine until the watchdog fires)
+	shArgs := append([]string{"-c", `ulimit -v 3500000; exec "$0" "$@"`, bin}, args...)
+	r := runCmd(dir, env, genWatchdog, "/bin/sh", shArgs...)
 	if r.TimedOut && plan != nil && len(plan.Faults) == 0 {
 		retryMu.Lock()
 		os.Truncate(tracePath, 0)
-		r = runCmd(dir, env, 2*genWatchdog, bin, args...)
+		r = runCmd(dir, env, 2*genWatchdog, "/bin/sh", shArgs...)
 		retryMu.Unlock()
 	}
 	gr := &genRun{Exit: r.Exit, Stderr: r.Stderr, TimedOut: r.TimedOut, Wall: r.Wall}
